@@ -52,7 +52,7 @@ def kind_of(v):
 def run(ctx):
     ctx.explanation = (
         "TAB/FLOW rules decided on the parsed source: DefaultParams is a frozen dataclass whose defaults are of hashable kinds and whose "
-        "annotations equal the types of their defaults, as_dict is dataclasses.asdict; every class deriving from it may re-bind a base field "
+        "annotations equal the types of their defaults, as_dict agrees with attribute access and round-trips; every class deriving from it may re-bind a base field "
         "only as a dataclass field of the same declared type inside a frozen dataclass (a plain class attribute is dead because the inherited "
         "__init__ shadows it) and must itself satisfy the type rule.  For parse_config and its helpers: reads of optional keys of the parsed "
         "TOML tables are guarded (key-definedness on the CFG), operations accept the kind of the default they may hold, try/except handlers "
@@ -69,7 +69,7 @@ def run(ctx):
 
 
 RULES = {
-    "C19.record": "DefaultParams: @dataclass(frozen=True); every default of a hashable kind; annotation == type of default; as_dict == dataclasses.asdict(self)",
+    "C19.record": "DefaultParams: @dataclass(frozen=True); every default of a hashable kind; annotation == type of default; as_dict() interpreted on a default and on a fully overridden record equals attribute access and round-trips through DefaultParams(**d)",
     "C19.preset": "a subclass re-binding a DefaultParams field does so as an annotated field of the same type in a @dataclass(frozen=True) class, with a default of that type",
     "C19.key-defined": "every subscript read of a parsed-TOML dict is guarded (`k in d` / prior store / .get / KeyError handler) unless the key is a documented required input of that mode",
     "C19.kind": "an operation applied to a parameter value accepts the kind of the DefaultParams default it may hold",
@@ -78,6 +78,8 @@ RULES = {
     "C19.postcond": "_parse_config_params: the sum and length checks raise ConfigError and dominate the return; phases go through _parse_phase per element into a tuple",
     "C19.defaults-all-paths": "a statement that gives an optional key its default (d[k] = d.get(k, default) / setdefault) dominates every return of its function",
     "C19.phase-kinds": "_parse_phase returns a MineralPhase member or raises the configuration error for every kind of TOML value (name, ordinal, member, unknown name, out-of-range ordinal, float, list)",
+    "C19.config-table": "parse_config interpreted over every subset of the optional keys of [output], [input] and [parameters] in all three input modes: it parses, "
+                        "every optional key takes its documented default, phases and fabric are enumeration members; single-fault invalid configurations raise ConfigError",
     "C19.output-kept": "defaults computed for the [output] table are stored in the returned configuration even when the table is omitted",
 }
 
@@ -93,10 +95,55 @@ def record(ctx, I):
     for name, ann, dflt, owner in I.dataclass_fields(cv):
         check_field(ctx, I, cv, name, ann, dflt, owner, "C19.record", f"DefaultParams.{name}")
     ctx.floor("C19.record", 10)
+    # as_dict, interpreted on the default record and on a record with every field overridden by a generic value of its kind
+    from ..interp import Env, RaiseSig
+    from ..values import keyof
+    from .. import alg
     ad = cv.find_method("as_dict")
-    ok = ad is not None and any(isinstance(r, ast.Return) and isinstance(r.value, ast.Call) and (flow.dotted(r.value.func) or "").split(".")[-1] == "asdict"
-                                and len(r.value.args) == 1 and isinstance(r.value.args[0], ast.Name) and r.value.args[0].id == "self" for r in ast.walk(ad.node))
-    ctx.ob("C19.record", "as_dict returns dataclasses.asdict(self)", ok, "", loc)
+    if ad is None:
+        ctx.ob("C19.record", "as_dict agrees with attribute access", False, "DefaultParams.as_dict is gone", loc)
+        return
+    fields = I.dataclass_fields(cv)
+    over = {}
+    for name, ann, dflt, owner in fields:
+        v = I.ev(dflt, Env(owner.module))
+        k = kind_of(v)
+        if k == "float":
+            over[name] = alg.psym(f"v_{name}")
+        elif k == "int":
+            over[name] = int(v) + 17
+        elif k == "tuple":
+            over[name] = tuple(alg.psym(f"v_{name}_{i}") if kind_of(x) == "float" else x for i, x in enumerate(v)) + ((v[-1],) if kind_of(v[-1]) == "enum" else ())
+        elif k == "enum":
+            others = [m for m in v.cls.members.values() if m != v]
+            over[name] = others[-1] if others else v
+        else:
+            over[name] = v
+    for label, kwargs in (("defaults", {}), ("every field overridden", over)):
+        try:
+            rec = I.call(cv, (), dict(kwargs))
+            d = I.call(I.getattr(rec, "as_dict", None), ())
+        except RaiseSig as r:
+            ctx.ob("C19.record", f"as_dict agrees with attribute access ({label})", False, f"raises {r.exc.typename}", loc)
+            continue
+        bad = []
+        if not isinstance(d, dict):
+            bad.append(f"returns {type(d).__name__}, not a dict")
+        else:
+            if list(d) != [f[0] for f in fields]:
+                bad.append(f"keys {sorted(set(d) ^ {f[0] for f in fields})} differ from the record's fields")
+            for name, *_ in fields:
+                if name in d and keyof(d[name]) != keyof(rec.attrs[name]):
+                    bad.append(f"as_dict()[{name!r}] = {d[name]!r} but .{name} = {rec.attrs[name]!r}")
+            if d is rec.attrs:
+                bad.append("returns the record's own storage (mutating the dictionary would mutate the frozen record)")
+            try:
+                rec2 = I.call(cv, (), dict(d))
+                if any(keyof(rec2.attrs[n]) != keyof(rec.attrs[n]) for n, *_ in fields):
+                    bad.append("DefaultParams(**as_dict()) differs from the record")
+            except RaiseSig as r:
+                bad.append(f"DefaultParams(**as_dict()) raises {r.exc.typename}")
+        ctx.ob("C19.record", f"as_dict agrees with attribute access ({label})", not bad, "; ".join(bad[:3]), loc)
 
 
 def check_field(ctx, I, cv, name, ann, dflt, owner, rule, construct):
@@ -175,6 +222,7 @@ def config(ctx, I):
     for name, fn in fns.items():
         defaults_all_paths(ctx, mod, name, fn)
     phase_kinds(ctx, I)
+    config_table(ctx)
     kinds(ctx, mod, fns, I, param_fields)
     postcond(ctx, mod, fns)
     output_kept(ctx, mod, fns)
@@ -300,6 +348,196 @@ def phase_kinds(ctx, I):
         except RaiseSig as r:
             ctx.ob("C19.phase-kinds", tag, r.exc.typename == "ConfigError", f"raised {r.exc.typename}", loc)
     ctx.floor("C19.phase-kinds", 10)
+
+
+def _config_interp(ctx, toml_holder):
+    """Interpreter for parse_config with the file layer stubbed: tomllib.load returns the supplied table."""
+    import copy
+    from ..values import Native, Record, Opaque
+    from ..interp import Interp
+
+    def pathrec(s):
+        r = Record(None, {"name": s}, label="Path")
+        r.attrs["parent"] = r
+        r.native_methods["resolve"] = Native("resolve", lambda I_: r)
+        return r
+
+    def resolve_path(I_, path, refdir=None):
+        return pathrec(str(getattr(path, "attrs", {}).get("name", path)))
+    ext = {
+        "builtins.open": Native("open", lambda I_, *a, **k: Record(None, {}, label="file")),
+        "tomllib.load": Native("load", lambda I_, f: copy.deepcopy(toml_holder["toml"])),
+        "pathlib.Path.cwd": Native("cwd", lambda I_: pathrec("<cwd>")),
+        "meshio.read": Native("meshio.read", lambda I_, p: Record(None, {"kind": "mesh"}, label="mesh")),
+        "numpy.load": Native("np.load", lambda I_, p: Record(None, {"kind": "npz"}, label="npz")),
+    }
+    stubs = {"pydrex.io.resolve_path": Native("resolve_path", resolve_path),
+             "pydrex.io.read_scsv": Native("read_scsv", lambda I_, p: Record(None, {"kind": "scsv"}, label="scsv"))}
+    I = Interp(ctx.program, externals=ext, stubs=stubs)
+    return I
+
+
+def config_table(ctx):
+    import itertools
+    from ..interp import RaiseSig
+    from ..alg import E
+    dotted = "pydrex.io.parse_config"
+    loc = defloc(ctx, dotted)
+    holder = {}
+    I = _config_interp(ctx, holder)
+    f = public(ctx, I, dotted)
+    cls_phase = I.resolve("pydrex.core.MineralPhase")
+    cls_fab = I.resolve("pydrex.core.MineralFabric")
+    dp = I.resolve("pydrex.core.DefaultParams")
+    from ..interp import Env
+    defaults = {n: I.ev(d, Env(o.module)) for n, a, d, o in I.dataclass_fields(dp)}
+    modes = {
+        "mesh": {"mesh": "m.vtu", "locations_final": "f.scsv", "timestep": 1e9},
+        "velocity_gradient": {"velocity_gradient": ["simple_shear_2d", "Y", "X", 5e-6], "locations_initial": "s.scsv", "timestep": 1e9},
+        "paths": {"paths": ["p1.npz", "p2.npz"]},
+    }
+    out_opt = {"directory": "out", "raw_output": ["olivine"], "diagnostics": ["olivine"], "anisotropy": ["Voigt"], "paths": ["o.scsv"], "log_level": "DEBUG"}
+    in_opt = {"strain_final": 10.0}
+    par_opt = {"phase_assemblage": ["olivine", "enstatite"], "phase_fractions": [0.5, 0.5], "initial_olivine_fabric": "B", "gbm_mobility": 10, "number_of_grains": 100}
+    n_ok = 0
+
+    def run(toml):
+        holder["toml"] = toml
+        try:
+            return I.call(f, ("cfg.toml",)), None
+        except RaiseSig as r:
+            return None, r.exc
+
+    def check(tag, toml, mode):
+        nonlocal n_ok
+        res, exc = run(toml)
+        if exc is not None:
+            ctx.ob("C19.config-table", tag, False, f"a configuration with the required inputs raises {exc.typename} (line {getattr(exc.node, 'lineno', '?')})", loc)
+            return
+        bad = []
+        o = res.get("output") if isinstance(res, dict) else None
+        if not isinstance(o, dict):
+            bad.append("no [output] table in the result")
+        else:
+            given = toml.get("output", {})
+            want = {"anisotropy": ["Voigt", "hexaxis", "moduli", "%decomp"], "log_level": "WARNING"}
+            for k, v in want.items():
+                exp = given.get(k, v)
+                if o.get(k) != exp:
+                    bad.append(f"output.{k} = {o.get(k)!r}, documented {exp!r}")
+            if "paths" not in o or (o["paths"] is not None and ("paths" not in given or mode == "paths")):
+                if "paths" not in o:
+                    bad.append("output.paths missing")
+            if "paths" not in given and o.get("paths") is not None:
+                bad.append(f"output.paths defaults to {o.get('paths')!r}, documented None")
+            if "directory" not in o:
+                bad.append("output.directory missing")
+            ass = res["parameters"]["phase_assemblage"] if isinstance(res.get("parameters"), dict) else ()
+            for k in ("raw_output", "diagnostics"):
+                v = o.get(k)
+                if not isinstance(v, list) or not all(isinstance(x, EnumMember) and x.cls is cls_phase for x in v):
+                    bad.append(f"output.{k} = {v!r} is not a list of MineralPhase members")
+                elif k not in given and list(v) != list(ass):
+                    bad.append(f"output.{k} defaults to {v!r}, documented: all simulated phases {list(ass)!r}")
+        p = res.get("parameters") if isinstance(res, dict) else None
+        if not isinstance(p, dict):
+            bad.append("no [parameters] table in the result")
+        else:
+            givenp = toml.get("parameters", {})
+            for k, dv in defaults.items():
+                if k not in p:
+                    bad.append(f"parameters.{k} missing")
+                elif k not in givenp and k not in ("phase_assemblage", "initial_olivine_fabric", "disl_coefficients") and kind_of(p[k]) != kind_of(dv):
+                    bad.append(f"parameters.{k} default of kind {kind_of(p[k])}, record default kind {kind_of(dv)}")
+                elif k not in givenp and k not in ("phase_assemblage", "initial_olivine_fabric", "disl_coefficients") and repr(p[k]) != repr(dv):
+                    bad.append(f"parameters.{k} defaults to {p[k]!r}, record default {dv!r}")
+            pa, pf = p.get("phase_assemblage"), p.get("phase_fractions")
+            if not (isinstance(pa, tuple) and all(isinstance(x, EnumMember) and x.cls is cls_phase for x in pa)):
+                bad.append(f"phase_assemblage {pa!r} is not a tuple of MineralPhase members")
+            if pa is not None and pf is not None and len(pa) != len(pf):
+                bad.append("phase and fraction lists differ in length")
+            fb = p.get("initial_olivine_fabric")
+            if not (isinstance(fb, EnumMember) and fb.cls is cls_fab):
+                bad.append(f"initial_olivine_fabric {fb!r} is not a MineralFabric member")
+        i_ = res.get("input") if isinstance(res, dict) else None
+        if not isinstance(i_, dict):
+            bad.append("no [input] table in the result")
+        else:
+            giveni = toml.get("input", {})
+            for k in ("timestep", "strain_final", "paths"):
+                if k not in i_:
+                    bad.append(f"input.{k} missing")
+            if "strain_final" not in giveni and "strain_final" in i_ and not (str(i_["strain_final"]) == "inf"):
+                bad.append(f"input.strain_final defaults to {i_['strain_final']!r}, documented inf")
+            none_keys = {"mesh": ("velocity_gradient", "locations_initial", "paths"), "velocity_gradient": ("locations_final", "paths", "mesh"),
+                         "paths": ("locations_initial", "locations_final", "mesh")}[mode]
+            for k in none_keys:
+                if k not in i_ or i_[k] is not None:
+                    bad.append(f"input.{k} = {i_.get(k, '<missing>')!r} in {mode} mode, documented None")
+        if not isinstance(res.get("name"), str) and "name" not in res:
+            bad.append("name missing")
+        ctx.ob("C19.config-table", tag, not bad, "; ".join(bad[:4]), loc)
+        n_ok += 1
+
+    # every subset of the optional [output] keys x three modes (parameters/input optional keys omitted)
+    okeys = list(out_opt)
+    for mode, req in modes.items():
+        for r in range(len(okeys) + 1):
+            for sub in itertools.combinations(okeys, r):
+                toml = {"input": dict(req)}
+                if sub:
+                    toml["output"] = {k: out_opt[k] for k in sub}
+                check(f"{mode}:output{{{','.join(sub)}}}", toml, mode)
+    # subsets of optional [input] keys and of [parameters] keys
+    for mode, req in modes.items():
+        opt_in = dict(in_opt)
+        if mode == "paths":
+            opt_in["timestep"] = 1e9
+        ikeys = list(opt_in)
+        for r in range(len(ikeys) + 1):
+            for sub in itertools.combinations(ikeys, r):
+                toml = {"input": {**req, **{k: opt_in[k] for k in sub}}, "output": {}}
+                check(f"{mode}:input{{{','.join(sub)}}}", toml, mode)
+        pkeys = list(par_opt)
+        for r in range(len(pkeys) + 1):
+            for sub in itertools.combinations(pkeys, r):
+                if ("phase_assemblage" in sub) != ("phase_fractions" in sub):
+                    continue  # a lone list is a length mismatch, tested among the faults below
+                toml = {"input": dict(req), "parameters": {k: par_opt[k] for k in sub}}
+                check(f"{mode}:parameters{{{','.join(sub)}}}", toml, mode)
+    for letter in "ABCDE":
+        res, exc = run({"input": dict(modes["paths"]), "parameters": {"initial_olivine_fabric": letter}})
+        fb = res["parameters"]["initial_olivine_fabric"] if exc is None else None
+        ctx.ob("C19.config-table", f"fabric {letter}", exc is None and isinstance(fb, EnumMember) and fb.name == "olivine_" + letter, f"got {fb!r} / {exc!r}", loc)
+    for phases in (["olivine"], [0], ["enstatite", "olivine"], [1, 0], ["olivine", 1]):
+        fr = [1.0] if len(phases) == 1 else [0.25, 0.75]
+        res, exc = run({"input": dict(modes["paths"]), "parameters": {"phase_assemblage": phases, "phase_fractions": fr}})
+        pa = res["parameters"]["phase_assemblage"] if exc is None else None
+        names = [("olivine", "enstatite")[x] if isinstance(x, int) else x for x in phases]
+        ctx.ob("C19.config-table", f"phases {phases}", exc is None and isinstance(pa, tuple) and [getattr(x, "name", None) for x in pa] == names
+               and all(isinstance(x, EnumMember) for x in pa), f"got {pa!r} / {exc!r}", loc)
+    # single-fault invalid configurations
+    faults = {
+        "no [input]": {"output": {}},
+        "no timestep (mesh mode)": {"input": {"mesh": "m.vtu", "locations_final": "f.scsv"}},
+        "timestep of the wrong type": {"input": {**modes["velocity_gradient"], "timestep": "abc"}},
+        "strain_final of the wrong type": {"input": {**modes["paths"], "strain_final": "much"}},
+        "fractions do not sum to one": {"input": dict(modes["paths"]), "parameters": {"phase_assemblage": ["olivine", "enstatite"], "phase_fractions": [0.5, 0.6]}},
+        "more phases than fractions": {"input": dict(modes["paths"]), "parameters": {"phase_assemblage": ["olivine", "enstatite"], "phase_fractions": [1.0]}},
+        "more fractions than phases": {"input": dict(modes["paths"]), "parameters": {"phase_fractions": [0.5, 0.5]}},
+        "unknown phase name": {"input": dict(modes["paths"]), "parameters": {"phase_assemblage": ["peridot"], "phase_fractions": [1.0]}},
+        "phase ordinal out of range": {"input": dict(modes["paths"]), "parameters": {"phase_assemblage": [7], "phase_fractions": [1.0]}},
+        "unknown fabric letter": {"input": dict(modes["paths"]), "parameters": {"initial_olivine_fabric": "Q"}},
+        "fabric of the wrong type": {"input": dict(modes["paths"]), "parameters": {"initial_olivine_fabric": 3}},
+        "too few creep coefficients": {"input": dict(modes["paths"]), "parameters": {"disl_coefficients": [1.0, 2.0]}},
+        "output for an unknown phase": {"input": dict(modes["paths"]), "output": {"raw_output": ["peridot"]}},
+        "output for a phase that is not simulated": {"input": dict(modes["paths"]), "output": {"diagnostics": ["enstatite"]}},
+    }
+    for name, toml in faults.items():
+        res, exc = run(toml)
+        ctx.ob("C19.config-table", f"fault:{name}", exc is not None and exc.typename == "ConfigError",
+               f"raised {exc.typename if exc is not None else 'nothing (configuration accepted)'}", loc)
+    ctx.floor("C19.config-table", 200)
 
 
 def flow_exits(body):
